@@ -1924,3 +1924,263 @@ pub fn _chmod(guard: &mut MemfsGuard, opts: ChmodOpts) -> (r: RvResult<()>)
     requires wf(old(guard).st()),
     ensures wf(final(guard).st()),                                                                                //@ clause chmod.wf_preserved [C03]
 //@ body
+
+// =====================================================================================================================
+// read_all / read_lines (C06): decoding of the stored bytes, and the round trip with write_lines
+// ASSUMED[str-utf8-bytes]: UTF-8 decoding is the inverse of encoding
+pub uninterp spec fn decode(b: Seq<u8>) -> Option<Seq<char>>;
+#[verifier::external_body]
+pub proof fn ax_utf8_roundtrip(s: Seq<char>) ensures decode(utf8(s)) == Some(s) { }
+#[verifier::external_body]
+pub proof fn ax_decode_inverse(b: Seq<u8>) ensures decode(b) is Some ==> utf8(decode(b)->Some_0) == b { }
+// BufRead::lines (std docs): split at every '\n'; a final piece without terminator is a line, an empty final piece is not; one trailing
+// '\r' directly before the '\n' is removed as well
+pub open spec fn first_nl(t: Seq<char>, i: int) -> int decreases t.len() - i {
+    if i >= t.len() { t.len() as int } else if t[i] == '\n' { i } else { first_nl(t, i + 1) }
+}
+pub open spec fn strip_cr(l: Seq<char>) -> Seq<char> { if l.len() > 0 && l.last() == '\r' { l.drop_last() } else { l } }
+pub proof fn lemma_first_nl(t: Seq<char>, i: int)
+    requires 0 <= i <= t.len()
+    ensures i <= first_nl(t, i) <= t.len(), first_nl(t, i) < t.len() ==> t[first_nl(t, i)] == '\n',
+            forall|j: int| i <= j < first_nl(t, i) ==> t[j] != '\n'
+    decreases t.len() - i
+{
+    if i < t.len() && t[i] != '\n' { lemma_first_nl(t, i + 1); }
+}
+pub open spec fn split_lines(t: Seq<char>) -> Seq<Seq<char>> decreases t.len() via split_lines_dec {
+    if t.len() == 0 { Seq::empty() } else {
+        let i = first_nl(t, 0);
+        if i >= t.len() { seq![t] } else { seq![strip_cr(t.take(i))] + split_lines(t.skip(i + 1)) }
+    }
+}
+#[via_fn]
+proof fn split_lines_dec(t: Seq<char>) { if t.len() > 0 { lemma_first_nl(t, 0); } }
+pub open spec fn plain_line(l: Seq<char>) -> bool { (forall|j: int| 0 <= j < l.len() ==> l[j] != '\n') && !(l.len() > 0 && l.last() == '\r') }
+// text that starts with a plain line followed by '\n'
+pub proof fn lemma_split_head(l: Seq<char>, rest: Seq<char>)
+    requires plain_line(l)
+    ensures split_lines(l + seq!['\n'] + rest) == seq![l] + split_lines(rest)
+{
+    let t = l + seq!['\n'] + rest;
+    lemma_first_nl(t, 0);
+    let i = first_nl(t, 0);
+    assert(t[l.len() as int] == '\n');
+    assert(i == l.len()) by {
+        if i < l.len() { assert(t[i] == l[i]); }
+        if i > l.len() { assert(t[l.len() as int] != '\n'); }
+    }
+    assert(t.take(i) =~= l);
+    assert(t.skip(i + 1) =~= rest);
+}
+// front view of "every line followed by one newline"
+pub proof fn lemma_each_line_front(ls: Seq<Seq<char>>)
+    requires ls.len() > 0
+    ensures each_line_nl(ls) =~= ls[0] + seq!['\n'] + each_line_nl(ls.skip(1))
+    decreases ls.len()
+{
+    if ls.len() == 1 {
+        assert(ls.drop_last() =~= Seq::<Seq<char>>::empty());
+        assert(ls.skip(1) =~= Seq::<Seq<char>>::empty());
+    } else {
+        lemma_each_line_front(ls.drop_last());
+        assert(ls.drop_last().skip(1) =~= ls.skip(1).drop_last());
+        assert(ls.drop_last()[0] == ls[0]);
+        assert(ls.skip(1).last() == ls.last());
+    }
+}
+// ROUND TRIP: reading back what write_lines stored gives the lines, for lines without terminators (empty lines included, except that
+// write_lines of nothing but empty text writes nothing: that case is excluded by its own contract)
+pub proof fn theorem_lines_roundtrip(ls: Seq<Seq<char>>)
+    requires forall|i: int| 0 <= i < ls.len() ==> plain_line(#[trigger] ls[i])
+    ensures split_lines(each_line_nl(ls)) =~= ls,                                              //@ clause lines.read_lines_of_write_lines_is_identity [C06]
+            ls.len() > 0 ==> split_lines(join_nl(ls) + seq!['\n']) =~= ls,
+    decreases ls.len()
+{
+    if ls.len() > 0 {
+        lemma_each_line_front(ls);
+        theorem_lines_roundtrip(ls.skip(1));
+        lemma_split_head(ls[0], each_line_nl(ls.skip(1)));
+        assert(seq![ls[0]] + ls.skip(1) =~= ls);
+        lemma_join_is_one_newline_per_line(ls);
+    } else {
+        assert(each_line_nl(ls) =~= Seq::<char>::empty());
+    }
+}
+//@ obligation lemma_first_nl props=C06
+//@ obligation lemma_split_head props=C06
+//@ obligation lemma_each_line_front props=C06
+//@ obligation theorem_lines_roundtrip props=C06
+impl Str {
+    #[verifier::external_body] pub fn new() -> (r: Str) ensures r@ == Seq::<char>::empty() { unimplemented!() }
+}
+impl MemfsFile {
+    // ASSUMED[io-read-to-string]: Read::read_to_string appends the UTF-8 decoding of all bytes from the position to the end (delivered by
+    // MemfsFile::read, proved in unit memfs_file) and fails on invalid UTF-8
+    #[verifier::external_body]
+    pub fn read_to_string(&mut self, buf: &mut Str) -> (r: RvResult<usize>)
+        requires old(self).pos as int <= old(self).data@.len()
+        ensures (r is Ok) == (decode(old(self).data@.skip(old(self).pos as int)) is Some),
+                r is Ok ==> final(buf)@ == old(buf)@ + decode(old(self).data@.skip(old(self).pos as int))->Some_0,
+    { unimplemented!() }
+}
+// ASSUMED[bufread-lines]: BufReader::new(r).lines() yields split_lines(decoded content), each Ok, when the content is valid UTF-8
+pub enum LineRes { L(Str), E }
+#[verifier::external_body]
+pub fn buf_lines(f: MemfsFile) -> (r: DeIter<RvResult<Str>>)
+    requires f.pos as int <= f.data@.len()
+    ensures decode(f.data@.skip(f.pos as int)) is Some ==> ({
+                let ls = split_lines(decode(f.data@.skip(f.pos as int))->Some_0);
+                r.rest().len() == ls.len() && forall|i: int| 0 <= i < ls.len() ==> (#[trigger] r.rest()[i]) is Ok && r.rest()[i]->Ok_0@ == ls[i] })
+{ unimplemented!() }
+
+//@ item read_all file=src/sys/fs/memfs/vfs.rs block="impl VirtualFileSystem for Memfs" fn=read_all props=C06,C01,C05,C12
+//@ rw R11 1 ⟦self.read(path)⟧ => ⟦read(guard, path)⟧
+//@ rw R1 1 ⟦String::new()⟧ => ⟦Str::new()⟧
+//@ ins before ⟦file.read_to_string(&mut buf)?;⟧
+                proof { assert(file.data@.skip(0) =~= file.data@); assert(buf@ + decode(file.data@)->Some_0 =~= decode(file.data@)->Some_0); }
+//@ endins
+pub fn read_all(guard: &MemfsGuard, path: &PathBuf) -> (r: RvResult<Str>)
+    requires wf(guard.st()),
+    ensures ({
+        let s = guard.st();
+        let a = spec_abs(s.cwd, path.comps());
+        &&& (a is None || !s.files.contains_key(a->Some_0)) ==> r is Err
+        &&& (a is Some && s.files.contains_key(a->Some_0)) ==> (r is Ok) == (decode(s.files[a->Some_0].data) is Some)
+        &&& (a is Some && r is Ok) ==> decode(s.files[a->Some_0].data) == Some(r->Ok_0@)              //@ clause read_all.returns_the_decoded_stored_bytes [C06]
+    }),
+//@ body
+
+// read() as used by read_lines: the handle is positioned at 0, so "from the position to the end" is the whole content
+pub fn read_at0(guard: &MemfsGuard, path: &PathBuf) -> (r: RvResult<MemfsFile>)
+    requires guard.st().cwd_ok, wf(guard.st()),
+    ensures ({
+        let s = guard.st();
+        let a = spec_abs(s.cwd, path.comps());
+        &&& (a is Some && s.files.contains_key(a->Some_0)) ==> r is Ok && r->Ok_0.data@.skip(r->Ok_0.pos as int) == s.files[a->Some_0].data && r->Ok_0.pos == 0
+        &&& (a is Some && !s.files.contains_key(a->Some_0)) ==> r is Err
+        &&& a is None ==> r is Err
+    }),
+{
+    let r = read(guard, path);
+    proof { if r is Ok { assert(r->Ok_0.data@.skip(0) =~= r->Ok_0.data@); } }
+    r
+}
+//@ item read_lines file=src/sys/fs/memfs/vfs.rs block="impl VirtualFileSystem for Memfs" fn=read_lines props=C06,C01,C05,C12
+//@ rw R9 1 ⟦let mut lines = vec![];⟧ => ⟦let mut lines: Vec<Str> = Vec::new();⟧
+//@ rw R4 1 ⟦BufReader::new(self.read(path)?).lines()⟧ => ⟦buf_lines(read_at0(guard, path)?)⟧
+//@ rw R3 1 for
+//@ ins after ⟦{ let mut __it1 = buf_lines(read_at0(guard, path)?);⟧
+        let ghost all = __it1.rest();
+        let ghost mut k: int = 0;
+        let ghost dec = decode(guard.st().files[spec_abs(guard.st().cwd, path.comps())->Some_0].data);
+//@ endins
+//@ loop 1
+            invariant 0 <= k <= all.len(), __it1.rest() == all.skip(k), lines@.len() == k,
+                      spec_abs(guard.st().cwd, path.comps()) is Some, guard.st().files.contains_key(spec_abs(guard.st().cwd, path.comps())->Some_0),
+                      dec == decode(guard.st().files[spec_abs(guard.st().cwd, path.comps())->Some_0].data),
+                      dec is Some ==> all.len() == split_lines(dec->Some_0).len()
+                          && forall|i: int| 0 <= i < all.len() ==> (#[trigger] all[i]) is Ok && all[i]->Ok_0@ == split_lines(dec->Some_0)[i],
+                      forall|i: int| 0 <= i < k ==> (#[trigger] all[i]) is Ok,
+                      forall|i: int| 0 <= i < k ==> (#[trigger] lines@[i])@ == all[i]->Ok_0@,
+            ensures k == all.len(),
+            decreases all.len() - k
+//@ endloop
+//@ ins after ⟦None => break };⟧
+            proof { assert(line == all[k]); }
+            let ghost before = lines@;
+//@ endins
+//@ ins loopend 1
+            proof {
+                assert(lines@ =~= before.push(all[k]->Ok_0));
+                assert forall|i: int| 0 <= i < k + 1 implies (#[trigger] lines@[i])@ == all[i]->Ok_0@ by { if i < k { assert(lines@[i] == before[i]); } }
+                k = k + 1;
+            }
+//@ endins
+pub fn read_lines(guard: &MemfsGuard, path: &PathBuf) -> (r: RvResult<Vec<Str>>)
+    requires wf(guard.st()),
+    ensures ({
+        let s = guard.st();
+        let a = spec_abs(s.cwd, path.comps());
+        &&& (a is None || !s.files.contains_key(a->Some_0)) ==> r is Err
+        &&& (a is Some && s.files.contains_key(a->Some_0) && decode(s.files[a->Some_0].data) is Some) ==>
+                r is Ok && views(r->Ok_0@) =~= split_lines(decode(s.files[a->Some_0].data)->Some_0)          //@ clause read_lines.returns_the_lines_of_the_decoded_content [C06]
+    }),
+//@ body
+
+// =====================================================================================================================
+// builders: the options a fresh Chmod / Chown / Copier starts from (the provider callback `exec` is dropped: R9, boxed closure)
+// R9: the structs without their `exec: Box<dyn Fn(..)>` field
+pub struct Chmod { pub opts: ChmodOpts }
+pub struct Chown { pub opts: ChownOpts }
+pub struct Copier { pub opts: CopyOpts }
+//@ item chmod_b file=src/sys/fs/memfs/vfs.rs block="impl VirtualFileSystem for Memfs" fn=chmod_b props=C11,C05,C12
+//@ rw R11 1 ⟦self.abs(path)?⟧ => ⟦_abs(guard, path)?⟧
+//@ rw R9 1 ⟦let vfs = self.clone();⟧ => ⟦⟧
+//@ rw R9 1 re⟦let exec_func = move \|[^|]*\| -> RvResult<\(\)> \{[^}]*\};⟧ => ⟦⟧
+//@ rw R9 1 ⟦exec: Box::new(exec_func),⟧ => ⟦⟧
+//@ rw R1 1 ⟦"".to_string()⟧ => ⟦Str::new()⟧
+pub fn chmod_b(guard: &MemfsGuard, path: &PathBuf) -> (r: RvResult<Chmod>)
+    requires guard.st().cwd_ok
+    ensures (r is Ok) == (spec_abs(guard.st().cwd, path.comps()) is Some),
+            r is Ok ==> ({
+                let o = r->Ok_0.opts;
+                // chmod is recursive by default, does not follow links, and starts with no octal modes and no expression
+                &&& o.path@ == spec_abs(guard.st().cwd, path.comps())->Some_0 && o.path.abs_clean()
+                &&& o.dirs == 0 && o.files == 0 && !o.follow && o.recursive && o.sym@ == Seq::<char>::empty()     //@ clause chmod_b.defaults [C11]
+            }),
+//@ body
+//@ item chown_b file=src/sys/fs/memfs/vfs.rs block="impl VirtualFileSystem for Memfs" fn=chown_b props=C11,C05,C12
+//@ rw R11 1 ⟦self.abs(path)?⟧ => ⟦_abs(guard, path)?⟧
+//@ rw R9 1 ⟦let vfs = self.clone();⟧ => ⟦⟧
+//@ rw R9 1 re⟦let exec_func = move \|[^|]*\| -> RvResult<\(\)> \{[^}]*\};⟧ => ⟦⟧
+//@ rw R9 1 ⟦exec: Box::new(exec_func),⟧ => ⟦⟧
+pub fn chown_b(guard: &MemfsGuard, path: &PathBuf) -> (r: RvResult<Chown>)
+    requires guard.st().cwd_ok
+    ensures (r is Ok) == (spec_abs(guard.st().cwd, path.comps()) is Some),
+            r is Ok ==> ({
+                let o = r->Ok_0.opts;
+                &&& o.path@ == spec_abs(guard.st().cwd, path.comps())->Some_0 && o.path.abs_clean()
+                &&& o.uid is None && o.gid is None && !o.follow && o.recursive                                     //@ clause chown_b.defaults [C11]
+            }),
+//@ body
+//@ item copy_b file=src/sys/fs/memfs/vfs.rs block="impl VirtualFileSystem for Memfs" fn=copy_b props=C09,C12
+//@ rw R9 1 ⟦let vfs = self.clone();⟧ => ⟦⟧
+//@ rw R9 1 re⟦let exec_func = move \|[^|]*\| -> RvResult<\(\)> \{.*?\n        \};⟧ => ⟦⟧
+//@ rw R9 1 ⟦exec: Box::new(exec_func),⟧ => ⟦⟧
+//@ rw R8 1 ⟦sys::CopyOpts {⟧ => ⟦CopyOpts {⟧
+// ASSUMED[derive-default]: Default::default() is None for Option<u32> and false for bool
+//@ rw R4 1 ⟦mode: Default::default(),⟧ => ⟦mode: None,⟧
+//@ rw R4 3 re⟦(cdirs|cfiles|follow): Default::default\(\),⟧ => ⟦\1: false,⟧
+pub fn copy_b(src: &PathBuf, dst: &PathBuf) -> (r: RvResult<Copier>)
+    ensures r is Ok && ({
+                let o = r->Ok_0.opts;
+                // a fresh Copier copies src to dst as given, selects no mode and does not follow links
+                &&& same_path(o.src, *src) && same_path(o.dst, *dst)
+                &&& o.mode is None && !o.cdirs && !o.cfiles && !o.follow                                          //@ clause copy_b.defaults [C09]
+            }),
+//@ body
+
+// ---- remaining one-line queries
+// MemfsEntry::upcast (proved in unit entry_follow) seen through the traversal-entry view
+impl MemfsEntry {
+    #[verifier::external_body]
+    pub fn upcast(self) -> (r: VfsEntry) ensures r.iv() == (ItemV { path: self.path@, path_ok: self.path.abs_clean(), link: self.link }),
+        r.xmode() == self.mode, r.xdir() == self.dir, r.xfile() == self.file { unimplemented!() }
+}
+//@ item cwd file=src/sys/fs/memfs/vfs.rs block="impl VirtualFileSystem for Memfs" fn=cwd props=C01,C12
+//@ rw R11 1 ⟦Ok(self.read_guard().cwd())⟧ => ⟦Ok(guard.cwd())⟧
+pub fn cwd(guard: &MemfsGuard) -> (r: RvResult<PathBuf>)
+    ensures r is Ok && r->Ok_0@ == guard.st().cwd && r->Ok_0.abs_clean() == guard.st().cwd_ok     //@ clause cwd.returns_the_stored_cwd [C01]
+//@ body
+//@ item root file=src/sys/fs/memfs/vfs.rs block="impl VirtualFileSystem for Memfs" fn=root props=C01,C12
+//@ rw R11 1 ⟦self.read_guard().root()⟧ => ⟦guard.root()⟧
+pub fn root_(guard: &MemfsGuard) -> (r: PathBuf)
+    ensures r@ == root() && r.abs_clean()     //@ clause root.is_the_root [C01]
+//@ body
+//@ item entry file=src/sys/fs/memfs/vfs.rs block="impl VirtualFileSystem for Memfs" fn=entry props=C01,C05,C12
+pub fn entry(guard: &MemfsGuard, path: &PathBuf) -> (r: RvResult<VfsEntry>)
+    requires guard.st().cwd_ok
+    ensures (r is Ok) == (at(guard.st(), path.comps()) is Some),
+            r is Ok ==> ({ let e = at(guard.st(), path.comps())->Some_0;
+                           r->Ok_0.iv() == (ItemV { path: e.path, path_ok: e.path_ok, link: e.link }) && r->Ok_0.xmode() == e.mode && r->Ok_0.xdir() == e.dir && r->Ok_0.xfile() == e.file }),     //@ clause entry.is_the_stored_entry [C01]
+//@ body
